@@ -329,7 +329,8 @@ func processCommandLine(args []string, argsMap map[string]any) int {
 	}
 
 	// Overwrite verbosity if the output goes to stdout
-	if (len(inputName) == 0 && len(outputName) == 0) || strings.EqualFold(outputName, "STDOUT") == true {
+	if (len(inputName) == 0 && len(outputName) == 0) || strings.EqualFold(outputName, "STDOUT") == true ||
+		(strings.EqualFold(inputName, "STDIN") == true && len(outputName) == 0) {
 		verbose = 0
 	}
 
